@@ -23,7 +23,10 @@ BOUND = [b"9223372036854775807", b"9223372036854775808", b"-9223372036854775808"
          b"0x1p-1074", b"0x1p-1075", b"0x1.fffffffffffffp1023", b"0x1p1024", b"9007199254740993", b"9007199254740992.5",
          b"0.1", b"1e23", b"8.5e-1", b"123456789012345678901234567890", b"0.000001", b"1e", b"1e+", b"1.e1", b".e1", b"0x", b"0b", b"0x.p1",
          b"0x1p", b"inf", b"nan", b"-inf", b"infinity", b"NAN", b"nan(1)", b"true", b"TRUE", b"yes", b"On", b"off", b"NO", b"fAlSe", b"t", b"1", b"0", b"",
-         b"truee", b" true", b"0b102", b"0x1g", b"08", b"018", b"00", b"0-5", b"0x-5", b"0x0x5", b"0X1F", b"0B11", b"1_000", b"1,5", b"falsehood", b"False!", b"false ", b"FALSE-POSITIVE", b"falsee", b"yesss", b"yess", b"onn", b"offf", b"offs", b"nope", b"noo", b"tru", b"fals", b"truefalse", b"truee1", b"no0", b"on1", b"o", b"of", b"ye", b"n", b"y", b"trueyes", b"falseno", b"tRuE", b"FaLsE", b"oFf", b"yEs", b"-010", b"+010", b"-0x10", b"+0x1f", b"-0b11", b"-00", b"+0", b"-08", b"+09x", "\uff11".encode("utf8")]
+         b"truee", b" true", b"0b102", b"0x1g", b"08", b"018", b"00", b"0-5", b"0x-5", b"0x0x5", b"0X1F", b"0B11", b"1_000", b"1,5", b"0" * 29 + b"12", b"0" * 30 + b"12", b"0" * 31 + b"12", b"0b" + b"1" * 29, b"0b" + b"1" * 30, b"0b" + b"1" * 31, b"0" * 30 + b"2z", b"0" * 31 + b"z", b"0" * 29 + b"2z",
+         b"1." + b"0" * 26 + b"e10", b"1." + b"0" * 27 + b"e10", b"1." + b"0" * 28 + b"e10", b"0x" + b"0" * 28 + b"ff", b"0x" + b"0" * 29 + b"ff", b"0x" + b"0" * 27 + b"ff",
+         b"1" + b"0" * 14, b"1" + b"0" * 15, b"1" + b"0" * 16, b"9" * 63, b"9" * 64, b"9" * 65, b"0." + b"3" * 61, b"0." + b"3" * 62, b"0." + b"3" * 63, b"0" * 127 + b"7", b"0" * 126 + b"7", b"0" * 128 + b"7",
+         b"falsehood", b"False!", b"false ", b"FALSE-POSITIVE", b"falsee", b"yesss", b"yess", b"onn", b"offf", b"offs", b"nope", b"noo", b"tru", b"fals", b"truefalse", b"truee1", b"no0", b"on1", b"o", b"of", b"ye", b"n", b"y", b"trueyes", b"falseno", b"tRuE", b"FaLsE", b"oFf", b"yEs", b"-010", b"+010", b"-0x10", b"+0x1f", b"-0b11", b"-00", b"+0", b"-08", b"+09x", "\uff11".encode("utf8")]
 BOUNDSET = set(BOUND)
 SIGNPREFIX = re.compile(rb"^[+-]0[0-9A-Za-z]")
 
